@@ -37,6 +37,9 @@ def run(rep):
                     "leading semicolons, with and without trailing ';'; oracle: number of statements and EXPLAIN of each equal those of the parts parsed alone; distinct_nontrivial = scripts with at least two statements",
             "samples": res["samples"], "trusted_base": TRUSTED,
         })
+    # the semicolon-in-string/comment theorems are stated over Lexer/LexerModel.v: tie that model to the CURRENT lexer.go (a difference is a broken correspondence)
+    import lexcommon
+    lexcommon.lexer_premise(rep, broken, ())
     verif.report_broken(rep, broken, found)
     rep.assumptions = ["INSERT ... FORMAT <inline data> / VALUES payloads are excluded (as in the property)"]
 
